@@ -751,14 +751,17 @@ fn read_code<C: CodeVisitor>(
 
 					let label = labels.get_or_create(offset)?;
 
-					frames.push((label, frame_data));
+					frames.push((offset, label, frame_data));
 				}
 
 				// The format of the StackMap attribute doesn't guarantee ordered elements.
-				frames.sort_by_key(|&(label, _)| label);
+				// Note that the order of the label ids says nothing about the order of the bytecode offsets.
+				frames.sort_by_key(|&(offset, _, _)| offset);
 
 				// Later on, we want to quickly remove the first elements. A VecDeque is faster for this.
-				let frames: std::collections::VecDeque<_> = frames.into();
+				let frames: std::collections::VecDeque<_> = frames.into_iter()
+					.map(|(_, label, frame_data)| (label, frame_data))
+					.collect();
 
 				stack_map_frame.insert_if_empty(frames).context("only one StackMap attribute is allowed")?;
 			},
